@@ -892,6 +892,24 @@ func (x *Exec) builtin(b *ssa.Builtin, c *ssa.CallCommon, res ssa.Value) {
 		default:
 			x.fail("len of %s", c.Args[0].Type())
 		}
+	case "min", "max":
+		// Go 1.21 built-ins on integers and durations (mathematical integers)
+		vs := make([]Val, len(c.Args))
+		for i, a := range c.Args {
+			vs[i] = x.materialize(x.val(a))
+			if vs[i].Sort != "Int" {
+				x.fail("builtin %s on sort %s", b.Name(), vs[i].Sort)
+			}
+		}
+		t := vs[0].T
+		for _, v := range vs[1:] {
+			if b.Name() == "min" {
+				t = fmt.Sprintf("(ite (<= %s %s) %s %s)", t, v.T, t, v.T)
+			} else {
+				t = fmt.Sprintf("(ite (>= %s %s) %s %s)", t, v.T, t, v.T)
+			}
+		}
+		x.setTerm(res, t)
 	case "append":
 		x.appendBuiltin(c, res)
 	case "close":
